@@ -303,7 +303,42 @@ void NTT_Goldilocks::reversePermutation(Goldilocks::Element *dst, Goldilocks::El
         }
         else
         {
-            assert(0); // Option not implemented yet
+            // on-site permutation of an input whose rows >= size / extension are implicit zeros
+            assert(offset_cols == 0 && ncols == ncols_all); // single block
+            u_int64_t n_src = size / extension;
+#pragma omp parallel for schedule(static)
+            for (u_int64_t i = 0; i < size; i++)
+            {
+                u_int64_t r = BR(i, domainSize);
+                u_int64_t offset_r = r * ncols;
+                u_int64_t offset_i = i * ncols;
+                if (r == i && i >= n_src)
+                {
+                    std::memset(&dst[offset_i], 0, ncols * sizeof(Goldilocks::Element));
+                }
+                else if (r < i)
+                {
+                    // rows r and i swap places; a row that was beyond the input becomes zero
+                    Goldilocks::Element tmp[ncols];
+                    std::memcpy(&tmp[0], &src[offset_r], ncols * sizeof(Goldilocks::Element));
+                    if (i < n_src)
+                    {
+                        std::memcpy(&dst[offset_r], &src[offset_i], ncols * sizeof(Goldilocks::Element));
+                    }
+                    else
+                    {
+                        std::memset(&dst[offset_r], 0, ncols * sizeof(Goldilocks::Element));
+                    }
+                    if (r < n_src)
+                    {
+                        std::memcpy(&dst[offset_i], &tmp[0], ncols * sizeof(Goldilocks::Element));
+                    }
+                    else
+                    {
+                        std::memset(&dst[offset_i], 0, ncols * sizeof(Goldilocks::Element));
+                    }
+                }
+            }
         }
     }
 }
